@@ -66,6 +66,8 @@ pub enum Mode {
 }
 
 pub struct Choices {
+    /// search mode: the run number, consumed digit by digit by `enumerate` (deterministic strata)
+    pub run_index: Option<u64>,
     mode: Mode,
     pub log: Vec<(&'static str, u32)>,
     /// first strict-replay site mismatch (harness error, not a verdict)
@@ -76,10 +78,10 @@ pub struct Choices {
 
 impl Choices {
     pub fn search(seed: u64) -> Choices {
-        Choices { mode: Mode::Search(Rng::new(seed)), log: Vec::new(), mismatch: None, overrun: false }
+        Choices { run_index: None, mode: Mode::Search(Rng::new(seed)), log: Vec::new(), mismatch: None, overrun: false }
     }
     pub fn replay(list: Vec<u32>, sites: Option<Vec<String>>) -> Choices {
-        Choices { mode: Mode::Replay { list, pos: 0, sites }, log: Vec::new(), mismatch: None, overrun: false }
+        Choices { run_index: None, mode: Mode::Replay { list, pos: 0, sites }, log: Vec::new(), mismatch: None, overrun: false }
     }
 
     /// Weighted choice. With at most one positive weight nothing is drawn or recorded.
@@ -167,6 +169,33 @@ impl Choices {
                     }
                 }
             }
+        };
+        self.log.push((site, v));
+        v
+    }
+
+    pub fn search_run(seed: u64, run: u64) -> Choices {
+        let mut c = Choices::search(seed);
+        c.run_index = Some(run);
+        c
+    }
+
+    /// Enumerated value in 0..n: in search mode the next mixed-radix digit of the run number (so a
+    /// batch of consecutive runs walks the whole product space), recorded like any other choice.
+    pub fn enumerate(&mut self, site: &'static str, n: u32) -> u32 {
+        if n <= 1 {
+            return 0;
+        }
+        let v = match &mut self.mode {
+            Mode::Search(r) => match &mut self.run_index {
+                Some(ix) => {
+                    let v = (*ix % n as u64) as u32;
+                    *ix /= n as u64;
+                    v
+                }
+                None => r.below(n as u64) as u32,
+            },
+            Mode::Replay { .. } => return self.range(site, n),
         };
         self.log.push((site, v));
         v
